@@ -49,9 +49,10 @@ type reqState struct {
 }
 
 type world struct {
-	mu      sync.Mutex
-	reqs    map[[2]int]*reqState
-	openNew bool // requests that appear from now on are not gated
+	mu           sync.Mutex
+	reqs         map[[2]int]*reqState
+	openNew      bool // requests that appear from now on are not gated
+	stuckStarted atomic.Bool
 }
 
 func (w *world) get(conn, seq int) *reqState {
@@ -82,7 +83,7 @@ func ids(pkg []byte) (int, int, bool) {
 func (p *gateProto) ParsePackage(buff []byte) (int, int) {
 	n, st := protocol.TarsRequest(buff)
 	if st == transport.PackageFull {
-		if c, s, ok := ids(buff[:n]); ok {
+		if c, s, ok := ids(buff[:n]); ok && !(n > 12 && buff[12] == 2) {
 			p.w.get(c, s).framed.CompareAndSwap(0, tick())
 		}
 	}
@@ -91,6 +92,11 @@ func (p *gateProto) ParsePackage(buff []byte) (int, int) {
 
 func (p *gateProto) Invoke(ctx context.Context, pkg []byte) []byte {
 	c, s, _ := ids(pkg)
+	if len(pkg) > 12 && pkg[12] == 2 {
+		// the request of the client that never reads: a response far larger than the socket buffers
+		p.w.stuckStarted.Store(true)
+		return netlab.Frame(make([]byte, 32<<20))
+	}
 	r := p.w.get(c, s)
 	r.started.Store(tick())
 	<-r.gate
@@ -127,9 +133,10 @@ type scenario struct {
 	TLS              bool          `json:"tls"`
 	IdleMs           int           `json:"connections_idle_ms_before_shutdown"` // with requests_per_connection = 0: clients that only sit there
 	RawPeer          bool          `json:"tcp_peer_that_never_starts_the_tls_handshake"`
-	SecondShutdownMs int           `json:"second_shutdown_call_after_ms"` // a second, overlapping Shutdown call (admin command, then a signal)
-	BusyConns        int           `json:"connections_with_requests"`     // > 0: only the first that many connections send requests, the others just sit there
-	Unbuffered       bool          `json:"pool_queue_capacity_0"`         // receive loops hand their requests over to the workers directly
+	SecondShutdownMs int           `json:"second_shutdown_call_after_ms"`        // a second, overlapping Shutdown call (admin command, then a signal)
+	StuckReader      bool          `json:"one_more_client_that_stopped_reading"` // it is owed a 32 MiB response and never reads: its handler and the close notice block in Write
+	BusyConns        int           `json:"connections_with_requests"`            // > 0: only the first that many connections send requests, the others just sit there
+	Unbuffered       bool          `json:"pool_queue_capacity_0"`                // receive loops hand their requests over to the workers directly
 }
 
 type connResult struct {
@@ -223,6 +230,17 @@ func runScenario(sc scenario) {
 		if rp, err := net.DialTimeout("tcp", conf.Address, 3*time.Second); err == nil {
 			defer rp.Close()
 			time.Sleep(50 * time.Millisecond)
+		}
+	}
+	if sc.StuckReader {
+		if st, err := net.DialTimeout("tcp", conf.Address, 3*time.Second); err == nil {
+			defer st.Close()
+			b := make([]byte, 9)
+			binary.BigEndian.PutUint32(b, 9999)
+			b[8] = 2
+			_, _ = st.Write(netlab.Frame(b))
+			waitFor(func() bool { return w.stuckStarted.Load() }, 3*time.Second)
+			time.Sleep(100 * time.Millisecond) // its handler is in Write by now, the buffers are full
 		}
 	}
 	total := sc.Conns * sc.PerConn
@@ -405,7 +423,7 @@ func runScenario(sc scenario) {
 		if f := r.framed.Load(); f == 0 || f > shutdownCall || neverOpen[r] || isReset[r.conn] {
 			continue
 		}
-		if st := r.started.Load(); sc.OneWay && r.seq%2 == 0 && len(neverOpen) > 0 && (st == 0 || st > endStamp) {
+		if st := r.started.Load(); sc.OneWay && r.seq%2 == 0 && (len(neverOpen) > 0 || sc.StuckReader) && (st == 0 || st > endStamp) {
 			continue // queued behind handlers that never finish (bounded pool): not judged, like the two-way case below
 		}
 		if sc.OneWay && r.seq%2 == 0 {
@@ -419,8 +437,8 @@ func runScenario(sc scenario) {
 			}
 			continue
 		}
-		if st := r.started.Load(); len(neverOpen) > 0 && (st == 0 || st > endStamp) {
-			continue // a bounded pool occupied by handlers that never finish cannot start this one: not judged
+		if st := r.started.Load(); (len(neverOpen) > 0 || sc.StuckReader) && (st == 0 || st > endStamp) {
+			continue // a bounded pool occupied by handlers that never finish (or cannot write their response) cannot start this one: not judged
 		}
 		switch n := r.responses.Load(); {
 		case n == 0:
@@ -462,6 +480,9 @@ func runScenario(sc scenario) {
 			if f := r.framed.Load(); f == 0 || f > shutdownCall || neverOpen[r] || isReset[r.conn] {
 				continue
 			}
+			if st := r.started.Load(); sc.StuckReader && (st == 0 || st > endStamp) {
+				continue
+			}
 			if fin := r.finished.Load(); fin == 0 || fin > rt[0] {
 				which := map[int64]string{1: "Shutdown", 2: "a second, overlapping Shutdown call"}[rt[2]]
 				loc := locus
@@ -484,7 +505,7 @@ func runScenario(sc scenario) {
 		}
 	}
 	// oracle 3: return time
-	if len(neverOpen) == 0 {
+	if len(neverOpen) == 0 && !sc.StuckReader {
 		if took >= time.Duration(sc.CtxMs)*time.Millisecond {
 			run.Violation("shutdown-waits-for-context", locus, fmt.Sprintf("all handlers finished but Shutdown returned only at its context deadline (%v of %d ms); scenario %+v", took, sc.CtxMs, sc), wit(nil))
 			return
@@ -493,7 +514,8 @@ func runScenario(sc scenario) {
 			run.Violation("connection-not-closed", locus, fmt.Sprintf("Shutdown returned but a client connection was still open 6 s later; scenario %+v", sc), wit(nil))
 			return
 		}
-	} else if took > time.Duration(sc.CtxMs)*time.Millisecond+2*time.Second {
+	}
+	if (len(neverOpen) > 0 || sc.StuckReader) && took > time.Duration(sc.CtxMs)*time.Millisecond+2*time.Second {
 		run.Violation("shutdown-overruns-context", locus, fmt.Sprintf("Shutdown returned %v after a %d ms context", took, sc.CtxMs), wit(nil))
 		return
 	}
@@ -558,6 +580,10 @@ func main() {
 				id++
 				scs = append(scs, scenario{ID: id, Pool: pool, Conns: 16, BusyConns: 1, PerConn: 1, Script: "all-at-once", CtxMs: 8000, Delay: 1500 * time.Millisecond, DelayMs: 1500, IdleMs: 2300})
 			}
+			// one client has stopped reading while it is owed a large response: the others are notified
+			// and answered all the same, and Shutdown still returns when its context ends
+			id++
+			scs = append(scs, scenario{ID: id, Pool: pool, Conns: 3, PerConn: 1, Script: "all-at-once", CtxMs: 2500, Delay: 200 * time.Millisecond, DelayMs: 200, StuckReader: true})
 			// a handler that finishes well after the close notice went out (more than 3 s later)
 			id++
 			scs = append(scs, scenario{ID: id, Pool: pool, Conns: 2, PerConn: 1, Script: "all-at-once", CtxMs: 9000, Delay: 4300 * time.Millisecond, DelayMs: 4300})
